@@ -1,11 +1,13 @@
 package props
 
 import (
+	"fmt"
 	"testing"
 
 	"pgregory.net/rapid"
 
 	"verif/gen"
+	"verif/harness"
 	"verif/ref"
 )
 
@@ -38,3 +40,68 @@ func nontrivialC02(c caseProg, o *ref.Outcome, sh *progShape) bool {
 
 func TestC02(t *testing.T)       { runProgProperty(t, "C02", genC02, nontrivialC02, nil) }
 func TestReplayC02(t *testing.T) { replayOnly(t); TestC02(t) }
+
+// TestC02Mutants extends the domain beyond what the tree generator writes:
+// the token list of a generated program gets 1..3 token-level edits; if the
+// recogniser R2 still accepts it, the tree R2 assigns to it is evaluated by
+// R1 and compared with the implementation like any other program. This
+// reaches juxtapositions no generator rule produces (a bare expression
+// continued by the next line, an assignment that now targets another name,
+// a block that now ends earlier).
+func TestC02Mutants(t *testing.T) {
+	rec := harness.Get("C02")
+	rec.SetScope("mutants")
+	if replayPath() != "" {
+		t.Skip("replayed through TestC02")
+	}
+	rapid.Check(t, func(t *rapid.T) {
+		cfg := cfgC02(t)
+		cfg.PIllegal, cfg.PUnknown = 0, 0
+		cfg.Binds = true
+		p0, _ := gen.GenProg(t, cfg)
+		toks := gen.RenderProg(p0).Toks
+		if len(toks) == 0 {
+			return
+		}
+		n := 1 + gen.Weighted(t, "nmut", 60, 25, 15)
+		for i := 0; i < n && len(toks) > 0; i++ {
+			toks = gen.GenMutation(t, toks, 5).Apply(toks)
+		}
+		p, v := ref.ParseTokens(toks)
+		if !v.Accept || v.Unspecified != "" {
+			rec.Case(false, harness.Hash("rej"), "mutants:not-a-sentence")
+			return
+		}
+		lay := gen.GenLayout(t, toks, gen.LayoutOpts{Plain: 90})
+		src, _ := renderChecked(toks, lay)
+		c := caseProg{Prog: p, Layout: lay, Src: src}
+		// the tree must render back to the same tokens (self-check of R2's tree)
+		if back := gen.RenderProg(p.Clone()).Toks; !sameToks(back, toks) {
+			panic(fmt.Sprintf("HARNESS-ERROR: R2's tree does not render back to its tokens: %v | %v", toks, back))
+		}
+		o := ref.Run(p)
+		if o.Unspecified != "" {
+			rec.Case(false, harness.Hash("unspec"), "skipped:"+o.Unspecified)
+			return
+		}
+		a := interpret(src)
+		viol := compareOutcome(o, a)
+		rec.Case(true, harness.Hash(src), "mutants:accepted-sentence", outcomeFeat(o))
+		rec.Sample(func() any { return map[string]any{"mutated_src": clip(src, 300)} })
+		if viol != "" {
+			rec.Fail(t, c, "mutated program (still a sentence): %s\nsource:\n%s", viol, src)
+		}
+	})
+}
+
+func sameToks(a, b []gen.Tok) bool {
+	if len(a) != len(b) {
+		return false
+	}
+	for i := range a {
+		if a[i] != b[i] {
+			return false
+		}
+	}
+	return true
+}
